@@ -56,7 +56,7 @@ TRUSTED_BASE = [
     "Coq 8.16.1 kernel (coqc, vm_compute; no native_compute)",
     "axioms: none declared; Print Assumptions output recorded per theorem",
     "extraction: ExtrOcamlBasic only (bool, option, unit, list, prod, sumbool -> OCaml natives), OCaml 4.13.1, Zarith for number text",
-    "model runner driver.ml (parsing, printing), Go harness (generator, observation, canonicalisation), tools/compare.py, tools/monitors.py",
+    "model runner driver.ml (parsing, printing), Go harness (generator, observation, canonicalisation; keeper mode and app mode), tools/compare.py, tools/monitors.py",
     "modelled, not verified: x/bank, x/auth, x/params, x/distribution, SDK mint, IAVL/cachekv stores and iterators, cosmossdk.io/math, baseapp tx atomicity (DESIGN section 8)",
 ]
 
@@ -182,6 +182,42 @@ def evaluate(pid, d, done, V):
                 findings.append({"what": "correspondence broken in section %s at history %d op %d of seed %d (impl %s / model %s)" %
                                  (sec, m["h"], m["i"], sh["seed"], short(m["impl"]), short(m["model"])),
                                  "replay": rp, "concrete": False, "key": "diverge:" + sec})
+    # keeper-mode harness against the real application
+    app_ops = app_hist = 0
+    for k in range(done["shards"]):
+        sp = os.path.join(d, "shard.%d.json" % k)
+        if not os.path.exists(sp):
+            continue
+        sh = json.load(open(sp))
+        ops_path = os.path.join(d, "ops.%d.txt" % k)
+        app_ops += sh.get("app_ops", 0)
+        app_hist += sh.get("app_histories", 0)
+        if sh.get("app_error"):
+            findings.append({"what": "the app-mode run (real app.NewApp) failed: %s" % sh["app_error"][:300],
+                             "replay": write_replay(V, pid, "app-error", [], {"error": sh["app_error"]}), "concrete": False, "key": "app-error"})
+            break
+        for m in sh.get("app_mismatches", []):
+            sec = m["section"]
+            if sec == "res":
+                t = op_at(ops_path, m["h"], m["i"])
+                hit = (len(t) > 1 and t[1] in P["res_kinds"]) if m["op"] == "T" else (m["op"] in P["res_ops"])
+                if P.get("halt") and "halt" in (m["impl"], m["model"]):
+                    hit = True
+            elif sec == "alignment":
+                hit = True
+            else:
+                hit = any(sec.startswith(s_) or s_ == "*" for s_ in P["sections"])
+            if not hit:
+                continue
+            lines = history_prefix(ops_path, m["h"], m["i"])
+            meta = {"property": pid, "correspondence": "the real application (app.NewApp) and the keeper-mode harness disagree", "section": sec,
+                    "history": m["h"], "op_index": m["i"], "keeper_mode": trunc(m["impl"]), "app_mode": trunc(m["model"]), "shard_seed": sh["seed"]}
+            rp = write_replay(V, pid, "app-diverge", lines, meta)
+            findings.append({"what": "the real application and the keeper-mode harness disagree in section %s at history %d op %d of seed %d (keeper %s / app %s)" %
+                             (sec, m["h"], m["i"], sh["seed"], short(m["impl"]), short(m["model"])), "replay": rp, "concrete": False, "key": "app-diverge:" + sec})
+            break
+    stats["app_mode_histories"] = app_hist
+    stats["app_mode_operations"] = app_ops
     if done.get("errors"):
         findings.append({"what": "correspondence run failed: %s" % done["errors"][0][:300], "replay": write_replay(V, pid, "run-error", [], {"errors": done["errors"]}),
                          "concrete": False, "key": "run-error"})
@@ -349,7 +385,7 @@ def evidence(pid, tier, seed, coq, result, wall, nviol, V):
         "traces_validated_against_impl": result.get("histories", 0),
         "evaluations": max(result.get("ops", 0) + result.get("pure_cases", 0), 1),
         "distinct_nontrivial": result.get("pure_nontrivial", 0) if P.get("pure") else result.get("nontrivial", 0),
-        "rule": "histories are produced by the state-aware generator of harness/gen.go from VERIF_SEED (structured, mostly valid + hostile stream) and executed on the real keepers and on the extracted model; " + P["rule"],
+        "rule": "histories are produced by the state-aware generator of harness/gen.go from VERIF_SEED (structured, mostly valid + hostile stream) and executed on the real keepers, on the real application (app.NewApp) and on the extracted model; " + P["rule"],
         "samples": result.get("samples") or ["(no histories in this run)"],
         "input_distribution": {k: v for k, v in sorted(result.get("stats", {}).items())},
         "proof_failing": coq.get("failing"),
